@@ -1,11 +1,14 @@
-(* C09 -- the function the framework extracts: path-deriving commands first (Model/C09_paths.v), then the
-   commands of Model/C09_enc.v. *)
+(* C09 -- the function the framework extracts: path-deriving commands (Model/C09_paths.v), the loaders' construction sites
+   (Model/C09_load.v), then the commands of Model/C09_enc.v. *)
 From Coq Require Import List String.
-From Verif Require Import Lib.Sexp Model.C09_json Gen.C09_schema Model.C09_enc Model.C09_paths.
+From Verif Require Import Lib.Sexp Model.C09_json Gen.C09_schema Model.C09_enc Model.C09_paths Model.C09_load.
 Import ListNotations.
 
 Definition run_C09_top (s : sexp) : sexp :=
   match run_paths s with
   | Some r => r
-  | None => run_C09 s
+  | None => match run_load s with
+            | Some r => r
+            | None => run_C09 s
+            end
   end.
